@@ -191,6 +191,14 @@ theorem rho_step_is_square_plus_c (n x v : Nat) (hx : x < n) (hv : v < n) :
     mulAddLoop n x x v = (v + x * x) % n :=
   mulAddLoop_eq n x x v hx hv
 
+/-- **Fuel adequacy**: the model's loops are fuel-bounded recursions; the fuel never truncates the Go
+loops.  The inner loop started as in the code (`j = 1`, fuel `lim`) behaves the same with any larger
+fuel (it stops by its own condition `j < lim && flag`), and the multiplication loop is given `b + 1`
+steps, enough for its `⌈log₂ b⌉` iterations (`rho_step_is_square_plus_c` shows the complete product). -/
+theorem inner_loop_fuel_adequate (n v lim k : Nat) (flag : Bool) (x y g : Nat) :
+    rhoInner n v (lim + k) 1 lim flag x y g = rhoInner n v lim 1 lim flag x y g :=
+  rhoInner_fuel n v lim k 1 lim flag x y g (by omega)
+
 /-- **pq factorisation returns the two prime factors in ascending order**: for `n = p₁·p₂` with
 `p₁ ≤ p₂` primes (of any size, in particular below 2^63), any successful run returns `(p₁, p₂)`. -/
 theorem decompose_semiprime (p1 p2 : Nat) (hp1 : p1.Prime) (hp2 : p2.Prime) (hle : p1 ≤ p2)
